@@ -10,7 +10,7 @@ FILETIME_EPOCH = 116444736000000000
 ROOT_MTIME_NS = 1_500_000_000_123_456_700
 
 
-def gen_tree(rng, maxdepth=5, nmax=10, name_style=None, links=True, block=32768, maxlen=20000, deref_safe=False):
+def gen_tree(rng, maxdepth=5, nmax=10, name_style=None, links=True, block=32768, maxlen=20000, deref_safe=False, coincide=False):
     """Recipe: list of entries in creation order (parents first).  Paths are relative, '/'-separated."""
     entries = []
     dirs = [""]
@@ -65,6 +65,22 @@ def gen_tree(rng, maxdepth=5, nmax=10, name_style=None, links=True, block=32768,
                 used.discard(p)
                 continue
             entries.append({"path": p, "kind": "link", "target": rng.pick(cands)})
+    top = [e["path"] for e in entries if "/" not in e["path"]]
+    if coincide and top and len(dirs) > 1 and rng.chance(0.3):
+        # a link whose text, read from the tree root (or from the root's parent, 'src/...') instead of from the link's own
+        # directory, spells the path of a different entry: D/c exists next to the link D/l -> c, and so does the top-level c
+        c = rng.pick(top)
+        d = rng.pick(dirs[1:])
+        via_src = rng.chance(0.4)
+        base = posixpath.join(d, "src") if via_src else d
+        tgt, lnk = posixpath.join(base, c), fresh(d)
+        if tgt not in used and base not in used and lnk is not None and d.count("/") + 2 < maxdepth:
+            if via_src:
+                used.add(base)
+                entries.append({"path": base, "kind": "dir", "mode": 0o755, "mtime_ns": gen_mtime_ns(rng)})
+            used.add(tgt)
+            entries.append({"path": tgt, "kind": "file", "content": gen.gen_content(rng, block=block, maxlen=200), "mode": 0o644, "mtime_ns": gen_mtime_ns(rng)})
+            entries.append({"path": lnk, "kind": "link", "target": posixpath.join("src", c) if via_src else c})
     if deref_safe:
         # with dereference a link to a directory is followed: keep only such links whose referent subtree holds no link
         # at all, so that the walk is finite and acyclic (mutual cycles A/x -> B, B/y -> A would never end)
